@@ -422,16 +422,26 @@ fn prune_pieces_cap0(has_a: bool) {
         i += 1;
     }
     std::mem::forget(files);
-    let mut victims: Vec<CachedFile> = Vec::with_capacity(2);
-    if listed_a {
-        victims.push(cached(kfs::S_A, &kfs::k().ino[kfs::bound(kfs::D_W, kfs::S_A) as usize]));
+    // one apply_update call per concrete plan (the plan's names must be syntactically constant)
+    let dir = kfs::path_of(kfs::D_W, kfs::NONE);
+    if listed_app && listed_a {
+        let na = kfs::k().ino[kfs::bound(kfs::D_W, kfs::S_A) as usize];
+        let plan = second_chance::Update { to_evict: vec![cached(kfs::S_A, &na), cached(kfs::S_APP, &napp)], to_move_back: Vec::new() };
+        let r2 = apply_update(dir, plan);
+        assert!(r2.is_ok(), "KV-C05: applying the plan succeeds");
+        std::mem::forget(r2);
+    } else if listed_app {
+        let plan = second_chance::Update { to_evict: vec![cached(kfs::S_APP, &napp)], to_move_back: Vec::new() };
+        let r2 = apply_update(dir, plan);
+        assert!(r2.is_ok(), "KV-C05: applying the plan succeeds");
+        std::mem::forget(r2);
+    } else if listed_a {
+        let na = kfs::k().ino[kfs::bound(kfs::D_W, kfs::S_A) as usize];
+        let plan = second_chance::Update { to_evict: vec![cached(kfs::S_A, &na)], to_move_back: Vec::new() };
+        let r2 = apply_update(dir, plan);
+        assert!(r2.is_ok(), "KV-C05: applying the plan succeeds");
+        std::mem::forget(r2);
     }
-    if listed_app {
-        victims.push(cached(kfs::S_APP, &napp));
-    }
-    let plan = second_chance::Update { to_evict: victims, to_move_back: Vec::new() };
-    let r2 = apply_update(kfs::path_of(kfs::D_W, kfs::NONE), plan);
-    assert!(r2.is_ok(), "KV-C05: applying the plan succeeds");
     let st = kfs::k();
     assert!(kfs::bound(kfs::D_W, kfs::S_APP) == iapp && !st.ino[iapp as usize].touched,
             "KV-C17: application dot-files next to cached entries are never removed or re-stamped by maintenance");
@@ -439,7 +449,6 @@ fn prune_pieces_cap0(has_a: bool) {
         assert!(listed_a && kfs::bound(kfs::D_W, kfs::S_A) == kfs::NONE, "KV-C07: with capacity 0 every cached file is evicted");
     }
     kani::cover!(true, "reachable");
-    std::mem::forget(r2);
 }
 
 kfs_harness! {
